@@ -389,7 +389,7 @@ def generated_lines():
 def char_cases(tier, seed):
     cases = []
     alpha = ["a", " ", "'", '"', "=", "("]
-    maxlen = 6 if tier == "quick" else 7
+    maxlen = 6 if tier == "quick" else 8
     for n in range(1, maxlen + 1):
         for t in itertools.product(alpha, repeat=n):
             s = "".join(t)
@@ -525,7 +525,7 @@ def selftests():
 
 def main(tier, seed):
     run = Run(PID, tier, seed, "other")
-    maxtok = 5 if tier == "quick" else 6
+    maxtok = 5 if tier == "quick" else 7
     jobs = [(t, n) for t in ("python", "fortran") for n in range(1, maxtok + 1)]
     for part in pmap("vf.checks.c20", "work_sym", [{"jobs": [j]} for j in jobs]):
         run.absorb(part)
@@ -533,7 +533,7 @@ def main(tier, seed):
     for part in pmap("vf.checks.c20", "work_chars", [{"cases": c} for c in chunks(cases, common.NPROC * 2)]):
         run.absorb(part)
     run.bounds = {"tokens": "1..%d" % maxtok, "token_length": "1..200", "level": "0..8", "width": "8..132",
-                  "char_strings": "all lexable strings of <= %d characters over {a, blank, ', \", =, (} at width 8" % (6 if tier == "quick" else 7),
+                  "char_strings": "all lexable strings of <= %d characters over {a, blank, ', \", =, (} at width 8" % (6 if tier == "quick" else 8),
                   "generated_lines_x_widths": ngen}
     run.selftests = selftests()
     if not all(run.selftests.values()):
